@@ -771,6 +771,11 @@ func runCase(idx int, s spec) bool {
 	}
 	rec.Count("kit_decrypts_ref.ok", 1)
 
+	// ---------------- overlap: the same round trip while other operations share kit's buffer pool
+	if L >= 2 && !overlapRoundTrip(c, v, rng, ct, rct, pt, alg.opt) {
+		return true
+	}
+
 	rec.Count("alg."+string(alg.opt), 1)
 	rec.Count("cipher."+cipherNames[s.Cipher], 1)
 	rec.Count("length."+lenClass(L), 1)
@@ -891,6 +896,76 @@ func kitDecrypt(c *caseCtx, cb *cbMon, rng *mon.RNG, stage string, doc, pt []byt
 	default:
 		rec.Count("dec.src."+srcNames[srcStyle], 1)
 		rec.Count("dec.cons."+consNames[consStyle], 1)
+		return true
+	}
+	return false
+}
+
+// overlapRoundTrip: the Decrypt stream of kit's ciphertext is read to k bytes,
+// then a complete Decrypt of the reference implementation's ciphertext and a
+// complete Encrypt (checked by the reference implementation) run, then the
+// rest of the first stream is read. All three must be exact. No goroutines
+// other than kit's own; the order of the reads is fixed.
+func overlapRoundTrip(c *caseCtx, v *vault, rng *mon.RNG, ct, rct, pt []byte, algOpt enc.KeyAlgorithm) bool {
+	keyName := c.names[0]
+	unwrap := func(w []byte, a, n string, nonce, tag []byte) ([]byte, error) { return v.unwrap(w, a, n) }
+	opts := enc.DecryptOptions{UnwrapKeyFn: unwrap, KeyName: keyName}
+	k := rng.PickInt(1, 10, 65535, 65536+10)
+	if k >= len(pt) {
+		k = len(pt) / 2
+	}
+	sig := func(what string) string {
+		return "overlap/" + what + "/" + lenClass(len(pt)) + "/" + cipherNames[c.s.Cipher]
+	}
+	extra := map[string]any{"outer_stream_read_before_the_inner_operations": k}
+	rec.Step("overlap round trip")
+	dA, err := callDecrypt(bytes.NewReader(ct), opts)
+	if err != nil {
+		c.viol(sig("outer-decrypt-error"), "Decrypt rejected a valid document: "+err.Error(), extra)
+		return false
+	}
+	first := make([]byte, k)
+	if _, err := io.ReadFull(dA, first); err != nil {
+		c.viol(sig("outer-stream-error"), fmt.Sprintf("the stream failed within its first %d bytes: %v", k, err), extra)
+		return false
+	}
+	// inner 1: a complete Decrypt of another valid document (same plaintext, other file key)
+	dB, err := callDecrypt(bytes.NewReader(rct), opts)
+	var gotB []byte
+	if err == nil {
+		gotB, err = io.ReadAll(dB)
+	}
+	if err != nil || !bytes.Equal(gotB, pt) {
+		c.viol(sig("inner-decrypt"), fmt.Sprintf("a Decrypt run while another stream was half read: err=%v, %d bytes, first difference at %d", err, len(gotB), firstDiff(gotB, pt)), extra)
+		return false
+	}
+	// inner 2: a complete Encrypt, decrypted by the reference implementation
+	pt2 := bytes.Repeat([]byte{0x5A, 0xA5, 0x0F}, 25000)
+	er, err := callEncrypt(bytes.NewReader(pt2), enc.EncryptOptions{Algorithm: algOpt, KeyName: keyName,
+		WrapKeyFn: func(fk []byte, a, n string, nonce []byte) ([]byte, []byte, error) {
+			w, err := v.wrap(fk, a, n)
+			return w, nil, err
+		}})
+	var ct2, back []byte
+	if err == nil {
+		ct2, err = io.ReadAll(er)
+	}
+	if err == nil {
+		back, err = refenc.Decrypt(ct2, func(w []byte, kw int, n string) ([]byte, error) { return v.unwrap(w, refenc.KWName(kw), keyName) })
+	}
+	if err != nil || !bytes.Equal(back, pt2) {
+		c.viol(sig("inner-encrypt"), fmt.Sprintf("an Encrypt run while a Decrypt stream was half read gives a document the reference cannot decrypt to the plaintext: %v", err), extra)
+		return false
+	}
+	rest, err := io.ReadAll(dA)
+	got := append(first, rest...)
+	switch {
+	case err != nil:
+		c.viol(sig("outer-stream-error"), fmt.Sprintf("the half-read stream failed after the inner operations: %v (%d of %d bytes)", err, len(got), len(pt)), extra)
+	case !bytes.Equal(got, pt):
+		c.viol(sig("outer-bytes-differ"), fmt.Sprintf("the half-read stream delivered other bytes after the inner operations (%d bytes, plaintext %d, first difference at %d)", len(got), len(pt), firstDiff(got, pt)), extra)
+	default:
+		rec.Count("overlap.ok", 1)
 		return true
 	}
 	return false
@@ -1067,12 +1142,12 @@ func TestCheck(t *testing.T) {
 		"Lengths {0,1,2,15,16,17,k*65536-1,k*65536,k*65536+1 (k=1..4), seeded random <= 400 KiB}; ciphers {nil, AES-GCM, ChaCha20-Poly1305}; the five algorithm ids and the aliases AES, RSA, each wrapped for real by kit's crypto package (AES-KW, AES-CBC no-pad 128/192/256, RSA-OAEP-256 2048 bit); "+
 		"source styles {all-at-once, 1-byte, seeded random chunks, zero-length reads interleaved, last data together with EOF, io.Pipe writer with random write sizes}; consumers {io.ReadAll, 1-byte/61-byte buffer, random sizes, 70000-byte buffer}. "+
 		"The first cases form a seeded covering array of strength 2 over these 13 dimensions (every pair of values of every two dimensions), the thorough tier adds the full product length<=65537 x cipher x algorithm x key-name options and the full product of the four reader/consumer styles at seven boundary lengths, the rest are seeded random vectors. "+
-		"Each case is judged by: the structural monitor on the ciphertext bytes, refenc.Decrypt(kit.Encrypt(pt))==pt, kit.Decrypt(kit.Encrypt(pt))==pt with clean EOF, kit.Decrypt(refenc.Encrypt(pt))==pt, the wrap/unwrap argument monitor and the ErrDecryptionKeyMissing rule; in every odd-numbered case the key callbacks are busy: each call runs an independent small enc/v1 Encrypt/Decrypt round trip before answering (a key store that protects its own records with the scheme), which must neither fail nor disturb the outer stream. distinct = distinct dimension vectors; non-trivial = every case (a real encryption and three real decryptions); case 0 additionally decrypts kit's seven testdata files with refenc. "+
+		"Each case is judged by: the structural monitor on the ciphertext bytes, refenc.Decrypt(kit.Encrypt(pt))==pt, kit.Decrypt(kit.Encrypt(pt))==pt with clean EOF, kit.Decrypt(refenc.Encrypt(pt))==pt, the wrap/unwrap argument monitor and the ErrDecryptionKeyMissing rule; in every odd-numbered case the key callbacks are busy: each call runs an independent small enc/v1 Encrypt/Decrypt round trip before answering (a key store that protects its own records with the scheme), which must neither fail nor disturb the outer stream. distinct = distinct dimension vectors; non-trivial = every case (a real encryption and three real decryptions); case 0 additionally decrypts kit's seven testdata files with refenc. Every case with at least 2 plaintext bytes is followed by an overlapped round trip: kit's ciphertext is opened with Decrypt and read to k bytes (k in {1,10,65535,65546}, or half the plaintext), then a complete Decrypt of the reference ciphertext and a complete Encrypt (checked by refenc) run, then the rest is read; all three must be exact. "+
 		"Huge cases (after the ordinary ones, each run by one child): a generated plaintext of 4 GiB + 64 KiB + 100 bytes = 65538 segments (every segment differs) is streamed through kit.Encrypt and decrypted by refenc's streaming reader (quick: AES-GCM; thorough: both ciphers and also refenc's streaming Encrypt -> kit.Decrypt), "+
 		"compared position by position with the generator, plus total length, segment count and ciphertext length; this is the only place where segment numbers >= 65536 (the upper half of the nonce's 32-bit counter) occur.")
 	rec.Note("require", []string{"callback.inner_round_trips", "struct.ok", "ref_decrypts_kit.ok", "kit_decrypts_ref.ok", "roundtrip.ok", "key_missing.ok", "testdata.files_decrypted_by_refenc",
 		"src.zero_length_reads", "src.eof_with_last_data", "src.pipe_sources", "length.len=0", "length.len=k*64K", "length.len=k*64K+1", "length.len=k*64K-1",
-		"huge.kit-to-ref.ok", "huge.segments_beyond_65535_authenticated", "alg.AES", "alg.RSA", "alg.A128CBC-NOPAD", "alg.A192CBC-NOPAD", "alg.A256CBC-NOPAD", "alg.A256KW", "alg.RSA-OAEP-256"})
+		"overlap.ok", "huge.kit-to-ref.ok", "huge.segments_beyond_65535_authenticated", "alg.AES", "alg.RSA", "alg.A128CBC-NOPAD", "alg.A192CBC-NOPAD", "alg.A256CBC-NOPAD", "alg.A256KW", "alg.RSA-OAEP-256"})
 	rec.Note("plan", map[string]int{"covering_array_rows": nPairwise, "full_product_rows": nProduct, "total": len(specs)})
 	// the huge cases come after the ordinary ones; each is run by exactly one child
 	for i, h := range hugePlan() {
